@@ -2,7 +2,7 @@
    ONLY statements closed by exact + Print Assumptions. *)
 From Coq Require Import ZArith List Bool Arith Lia Permutation.
 Import ListNotations.
-From PV Require Import Sched.Block Sched.Confluence Sched.Accept Sched.DagAccept.
+From PV Require Import Sched.Block Sched.Confluence Sched.Accept Sched.DagAccept Sched.AcceptComplete.
 
 (* two packed bit ranges intersect iff some bit lies in both (whole signals, fields, nested fields, slices are all ranges) *)
 Theorem C02_overlap_iff_shared_bit a b : wf_ivl a = true -> wf_ivl b = true ->
@@ -19,6 +19,16 @@ Theorem C02_accepted_pass_orders_readers_after_writers d order : sched_ok d orde
                  pair_in (expl d) b a = false -> (pos order a < pos order b)%nat) /\
   (forall x y, pair_in (expl d) x y = true -> (pos order x < pos order y)%nat).
 Proof. exact (sched_ok_sound d order). Qed.
+
+(* and conversely: a pass that meets the property's ordering conditions IS accepted — on well-formed observed footprints the
+   acceptor decides the property exactly, so it raises no alarm on a schedule where the property holds *)
+Theorem C02_acceptor_decides_the_ordering_conditions d order : wf_design d = true ->
+  (sched_ok d order = true <->
+   NoDup order /\ Permutation order (ids d) /\
+   (forall a b v, In a (ids d) -> In b (ids d) -> a <> b -> writes_bit d a v -> reads_bit d b v ->
+                  pair_in (expl d) b a = false -> (pos order a < pos order b)%nat) /\
+   (forall x y, pair_in (expl d) x y = true -> (pos order x < pos order y)%nat)).
+Proof. exact (sched_ok_iff d order). Qed.
 
 (* the acceptor run on pymtl3's CONSTRAINT GRAPH G: in every schedule the graph allows (every linear extension of G, whatever
    the tie-break), readers run after writers unless an explicit constraint inverts the pair, and explicit constraints hold *)
@@ -46,3 +56,4 @@ Proof. vm_compute. repeat split. Qed.
 Print Assumptions C02_overlap_iff_shared_bit. Print Assumptions C02_footprints_overlap_iff.
 Print Assumptions C02_accepted_pass_orders_readers_after_writers. Print Assumptions C02_lin_ext_checker.
 Print Assumptions C02_each_block_once. Print Assumptions C02_accepted_graph_orders_readers_after_writers_in_every_schedule.
+Print Assumptions C02_acceptor_decides_the_ordering_conditions.
